@@ -205,6 +205,22 @@ def cases():
             out.append(('%s in [%s..%s]' % (x, y, y), 'true'))
             out.append(('list contains([%s], %s)' % (x, y), 'true'))
             out.append(('%s - %s = duration("PT0S")' % (x, y), 'true'))
+    # offsets written with seconds (`+01:00:30`): the seconds count on the UTC line like the hours and minutes do (C15 / C09)
+    for (a, b, rel, diff) in (('2021-01-01T10:00:00+01:00:30', '2021-01-01T08:59:30Z', '=', 'PT0S'), ('2021-01-01T10:00:00+01:00:30', '2021-01-01T09:59:45+01:00', '<', '-PT15S'),
+                              ('2021-01-01T10:00:00-00:00:30', '2021-01-01T10:00:00Z', '>', 'PT30S'), ('2021-06-01T12:00:00+05:30:15', '2021-06-01T06:29:45Z', '=', 'PT0S'),
+                              ('2021-06-01T12:00:00+05:30:59', '2021-06-01T12:00:00+05:30', '<', '-PT59S'), ('2021-01-01T00:00:10-04:56:02', '2021-01-01T04:56:12Z', '=', 'PT0S')):
+        A, B = 'date and time("%s")' % a, 'date and time("%s")' % b
+        out.append(('%s = %s' % (A, B), 'true' if rel == '=' else 'false'))
+        out.append(('%s < %s' % (A, B), 'true' if rel == '<' else 'false'))
+        out.append(('%s > %s' % (A, B), 'true' if rel == '>' else 'false'))
+        out.append(('%s - %s' % (A, B), diff))
+        out.append(('%s - %s' % (B, A), diff[1:] if diff.startswith('-') else ('-' + diff if diff != 'PT0S' else diff)))
+    # the offset of a date and time in a named zone is the offset in force on ITS OWN date, whatever the day the expression is evaluated on
+    # (a winter and a summer date in zones north and south of the equator: one of each pair differs from today's offset on any day)
+    for (lit, off) in (('2021-01-15T12:00:00@Europe/Warsaw', 'PT1H'), ('2021-07-15T12:00:00@Europe/Warsaw', 'PT2H'), ('2021-01-15T12:00:00@America/New_York', '-PT5H'),
+                       ('2021-07-15T12:00:00@America/New_York', '-PT4H'), ('2021-01-15T12:00:00@Australia/Sydney', 'PT11H'), ('2021-07-15T12:00:00@Australia/Sydney', 'PT10H')):
+        out.append(('date and time("%s").time offset' % lit, off))
+        out.append(('date and time("%s").timezone' % lit, '"%s"' % lit.split('@')[1]))
     # the components of a days-and-time duration are those of its whole length, however long it is (C15: up to the full range of a literal), also when it is a sum
     for (d_, h_, m_, s_) in ((213503, 23, 34, 33), (213504, 0, 0, 0), (213504, 5, 18, 36), (300000, 1, 2, 3), (427008, 0, 0, 1), (1000000, 23, 59, 59), (106751991167, 7, 12, 55)):
         lit = 'P%dDT%dH%dM%dS' % (d_, h_, m_, s_)
